@@ -502,3 +502,74 @@ type rtRun struct {
 	order      []int
 	callers    []int
 }
+
+const c17pRule = "a callback may panic (its caller recovers): SkipInterval S from {1s, 15s default, 1h}, 2-4 callbacks one of which panics in the first accepted run, a second call d after the first with d on both sides of S, a third call later; " +
+	"oracle: the first call ran the callbacks before the panicking one, so it was accepted: a call less than S after it runs nothing and returns ErrAlreadyInvalidated, a call S or more after it runs every callback once in order; " +
+	"non-trivial = the second call lies within the interval"
+
+// TestC17PanickingCallback: an accepted run that ends in a panic still counts for the spacing.
+func TestC17PanickingCallback(t *testing.T) {
+	runCheck(t, "C17", "C17PanickingCallback", c17pRule, func(c *Case) {
+		skip := []time.Duration{time.Second, 0, time.Hour}[c.Pick("SkipInterval", 3)]
+		eff := skip
+
+		if eff == 0 {
+			eff = 15 * time.Second
+		}
+
+		ncb := c.Int("callbacks", 2, 4)
+		bad := c.Int("panicking-callback", 1, ncb-1)
+		d := []time.Duration{time.Nanosecond, eff / 2, eff - 1, eff, eff + 1}[c.Pick("second-call-after", 5)]
+
+		c.Tracef("SkipInterval=%v, %d callbacks, #%d panics in the first run, second call %v after the first", skip, ncb, bad, d)
+
+		if d < eff {
+			c.NonTrivial()
+		}
+
+		c.Bubble(func() {
+			inv := &cache.Invalidator{SkipInterval: skip}
+			armed := true
+
+			var log []int
+
+			for j := 0; j < ncb; j++ {
+				j := j
+				inv.Callbacks = append(inv.Callbacks, func(context.Context) {
+					log = append(log, j)
+
+					if j == bad && armed {
+						armed = false
+
+						panic("callback gave up")
+					}
+				})
+			}
+
+			call := func() (err error, panicked interface{}) {
+				defer func() { panicked = recover() }()
+
+				return inv.Invalidate(context.Background()), nil
+			}
+
+			_, p1 := call()
+			c.Assert(p1 != nil, "panic-swallowed", "the callback's panic did not reach the caller of Invalidate")
+			c.Assert(len(log) == bad+1, "run-order", "first run executed callbacks %v before the panic of #%d", log, bad)
+
+			log = nil
+
+			time.Sleep(d)
+
+			err2, p2 := call()
+			c.Tracef("second call %v later: %v (panic %v), callbacks run %v", d, err2, p2, log)
+			c.Assert(p2 == nil, "invalidate-panic", "second Invalidate panicked: %v", p2)
+
+			if d < eff {
+				c.Assert(errors.Is(err2, cache.ErrAlreadyInvalidated) && len(log) == 0, "accepted-too-early",
+					"a call %v after an accepted call (whose callback #%d panicked) returned %v and ran callbacks %v, SkipInterval %v", d, bad, err2, log, eff)
+			} else {
+				c.Assert(err2 == nil && len(log) == ncb, "acceptance", "a call %v after the previous accepted call returned %v and ran callbacks %v, SkipInterval %v", d, err2, log, eff)
+			}
+		})
+	})
+}
